@@ -82,7 +82,7 @@ func leakCheck(t fataler, path string) bool {
 	return violation(t, "C19", sig, "a configured password appears in the output of path %q (%d records), e.g.: %s", path, len(leaks), what)
 }
 
-var c19Paths = []string{"restore-entry", "full-sync", "incremental", "resume-cuts", "checkpoint-load", "rump", "supervisor", "syncer-topology", "handshake", "reconnect-refused", "sync-end-to-end", "status-documents", "auth-type-unknown"}
+var c19Paths = []string{"restore-entry", "full-sync", "incremental", "resume-cuts", "checkpoint-load", "rump", "supervisor", "syncer-topology", "handshake", "reconnect-refused", "sync-end-to-end", "status-documents", "auth-type-unknown", "cluster-discovery"}
 
 // c19Path runs one of the tool's run paths (the other properties' drivers, with the sentinel
 // passwords configured everywhere and the log at a generated level) and scans what was printed.
@@ -195,6 +195,22 @@ func c19RunPath(t *rapid.T, path string) {
 			}
 		})
 		tgt.Close()
+		logcap.Cap.TakeAborts()
+	case "cluster-discovery":
+		// sync start with source.type=cluster asks the first node for its slot table; a node that accepts AUTH but answers
+		// CLUSTER SLOTS with an error (standalone instance, LOADING) makes the call fail, and callers log the error they get
+		for _, pw := range []string{srcSentinel, tgtSentinel} {
+			node := mredis.New()
+			node.Password = pw
+			node.Listen()
+			var err error
+			logcap.RunTree(func() { _, err = utils.GetSlotDistribution(node.Addr(), "auth", pw, false) })
+			if err != nil {
+				logcap.Cap.Scan("error returned by GetSlotDistribution (its callers log it)", []byte(err.Error()))
+				logcap.Cap.Scan("error returned by GetSlotDistribution (%+v)", []byte(fmt.Sprintf("%+v", err)))
+			}
+			node.Close()
+		}
 		logcap.Cap.TakeAborts()
 	case "status-documents":
 		// per-syncer status and the REST metric document built from it
